@@ -69,11 +69,10 @@ def gen_scenario(rng, lists, profile):
     Every channel keeps one history TTL and one meta TTL for the whole scenario (a deadline shortened by a
     later call is honoured late by the memory broker's expiry heap — C17's subject, not compared here), and
     meta TTL >= history TTL.
-    profile 'core': the region where the two brokers are expected to agree — a channel is either versioned
-                    (every history publish carries a version < 2^53; long TTL) or unversioned; idempotency keys
-                    only on history publishes; reverse reads without `since` or with since in {1, 2}; list
+    profile 'core': the region where the two brokers are expected to agree — versions < 2^53 (mixed with
+                    unversioned publishes); idempotency keys only on history publishes; reverse reads without `since` or with since in {1, 2}; list
                     storage: no versions, no delta, no reverse.
-    profile 'wide': additionally mixed versioned/unversioned publishes, versions >= 2^53, idempotency keys on
+    profile 'wide': additionally versions >= 2^53, idempotency keys on
                     no-history publishes, arbitrary reverse+since, and for lists versions/delta/reverse —
                     the region where the known differences live.
     """
@@ -88,16 +87,9 @@ def gen_scenario(rng, lists, profile):
              "versioned": rng.random() < (0.45 if not lists or wide else 0.0), "ver": 0}
         if lists:
             p["meta"] = 0  # historyList ignores HistoryOptions.MetaTTL; keep one meta TTL per channel
-        if p["versioned"]:
-            p["ttl"] = 600000
-            if p["meta"]:
-                p["meta"] = 900000
         eff = p["meta"] or node_meta
         if eff and eff < p["ttl"]:
-            if p["versioned"]:
-                p["meta"] = 900000
-            else:
-                p["ttl"] = 3000 if eff >= 3000 else p["ttl"]
+            p["ttl"] = 3000 if eff >= 3000 else p["ttl"]
         eff = p["meta"] or node_meta
         if eff and eff < p["ttl"]:
             p["meta"] = p["ttl"] + 5000
@@ -118,7 +110,7 @@ def gen_scenario(rng, lists, profile):
             if rng.random() < 0.3:
                 idem = rng.choice(idem_keys)
                 ittl = rng.choice([0, 2000, 5000])
-            if p["versioned"] and (not wide or rng.random() < 0.75):
+            if p["versioned"] and rng.random() < 0.75:
                 p["ver"] = max(1, p["ver"] + rng.choice([1, 1, 2, -1, 0, 3]))
                 v = p["ver"]
                 if wide and rng.random() < 0.15:
